@@ -417,7 +417,7 @@ def run(chk):
     quick = chk.tier == "quick"
     build = ["MCAddSheet", "MCRename", "MCRemoveSheet", "MCSetState", "MCSetActive", "MCAddMerge", "MCAddLink", "MCAddComment",
              "MCAddName"]
-    rest = ["MCAddDv", "MCAddCf", "MCSetAf", "MCSetTab", "MCAddView", "MCSetPs", "MCSetHf", "MCSetProt", "MCSetWbProt"]
+    rest = ["MCAddDv", "MCAddCf", "MCSetAf", "MCSetCode", "MCSetTab", "MCAddView", "MCSetPs", "MCSetHf", "MCSetProt", "MCSetWbProt"]
     for cfg, must in ((("MC_Annot.cfg", build), ("MC_Annot_rest.cfg", rest)) if quick else
                       (("MC_Annot_d4.cfg", build), ("MC_Annot_rest_d4.cfg", rest), ("MC_Annot_all.cfg", build + rest))):
         r = vlib.tlc_mc("MC_Annot", cfg, workers=4, check=chk, must_take=must, timeout=7200, heap="8g")
@@ -447,7 +447,8 @@ def run(chk):
     chk.nontrivial = {json.dumps(c["steps"], sort_keys=True) for c in cases if len(c["steps"]) > 2}
     chk.rule = ("a case is a history of public-API operations that build a workbook (sheets added/renamed/removed/hidden, "
                 "active tab, merges, hyperlinks, comments, defined names at any home/scope, validations, conditional formats, "
-                "auto filter, tab colour, view, page setup, header/footer, sheet and workbook protection) with one or more "
+                "auto filter, tab colour, code name, view, page setup, header/footer, sheet and workbook protection, macro payload) with "
+                "one or more "
                 "save+reload steps; cases = TLC paths (2 operations then a save, all pools), TLC-simulated histories of 40 "
                 "operations, generated workbooks with up to 60 items per kind and sheet and XML-special / non-ASCII texts, "
                 "link-heavy cases re-run in fresh processes; distinct = different step lists, non-trivial = at least one "
@@ -466,9 +467,12 @@ def run(chk):
         "formats and names is not part of the statement); sheets and the rules of one conditional format are sequences",
         "contract of the model: one comment per cell, defined names unique per (name, scope) - the same name may be global "
         "and local to several sheets -, localSheetId below the sheet count, sheets are renamed "
-        "only while they keep no defined names, a sheet is removed only while no name has a localSheetId; hyperlink "
-        "tooltips, comment shapes beyond their target cell, and text with surrounding blanks other than header/footer are "
-        "not generated",
+        "only while they keep no defined names, a sheet is removed only while no name has a localSheetId; comment "
+        "shapes beyond their target cell are not compared; CR characters and blanks at the ends of validation / conditional "
+        "format formulas are not generated",
+        "a comment's text is the concatenation of its runs (blanks, tabs and line feeds at run edges included; run fonts are "
+        "driven - bold heading run - but not compared); the code name of a sheet and the macro payload of a workbook are "
+        "driven and carried (they decide how the sheetPr element that holds the tab colour is written) but are not compared",
         "python3 zipfile / expat (pydec/annot_view.py) are correct; the spelling table of a text (driver) is checked by TLC "
         "(concatenation of the characters equals the text) before it is used to compute an escaped / trimmed form"]
 
